@@ -57,17 +57,19 @@ def handle (j : Json) : IO Unit := do
     let rounds := jarr (jget impl "rounds")
     let returned := rounds.length == 3 && rounds.all (fun r => jbool (jget r "returned") && guardOk (jget r "guard"))
     let namesAt := fun (r : Json) (i : Nat) => jstrList ((jarr (jget r "names")).getD i Json.null)
-    let expected := fun (i : Nat) (round : Nat) (cur : List String) =>
-      let cl := if round == 1 then classes.getD i "good" else "good"
-      (discover cur (outcomeOfClass cl [s!"m{i}-r{round}", "shared"])).1
-    -- a sibling's failure may cancel the round before a good listing was fetched (errgroup): in the mixed round a good
-    -- endpoint either takes its new listing up or keeps the previous one
-    let perEp := (List.range classes.length).map (fun i =>
-      (List.range rounds.length).foldl (fun (st : List String × Bool) round =>
+    -- the model of a whole round: every endpoint's result arrives (runAll; by C20_order_across_endpoints_irrelevant the
+    -- arrival order across endpoints is immaterial).  A sibling's failure may cancel the round before a good listing was
+    -- fetched (errgroup): in the mixed round a good endpoint's result may be absent, i.e. it keeps what it had.
+    let eps := List.range classes.length
+    let perRound := (List.range rounds.length).foldl (fun (st : Cat × Bool) round =>
+      let evs := eps.map (fun i => (i, outcomeOfClass (if round == 1 then classes.getD i "good" else "good") [s!"m{i}-r{round}", "shared"]))
+      let full := runAll evs st.1
+      let mixed := round == 1 && classes.any (· != "good")
+      let ok := eps.all (fun i =>
         let got := namesAt (rounds.getD round Json.null) i
-        let next := sortStr (expected i round st.1)
-        let mixed := round == 1 && classes.any (· != "good")
-        (got, st.2 && (next == got || (mixed && got == st.1)))) ([], true))
+        sortStr (full.get i) == got || (mixed && sortStr (st.1.get i) == got))
+      (eps.map (fun i => (i, namesAt (rounds.getD round Json.null) i)), st.2 && ok)) (([] : Cat), true)
+    let perEp := [perRound]
     let agree := returned && perEp.all (·.2)
     let keeps := (List.range classes.length).all (fun i =>
       ((List.range rounds.length).zip (List.range rounds.length).tail).all (fun (a, b) =>
